@@ -92,13 +92,14 @@ Definition float_ev (positive : bool) (digits : list N) (E : Z) (rest : bytes) :
   | Some bits => ([EF64 (if positive then bits else (sign_bit + bits)%N)], JOk rest)
   end.
 
-(* after the digits of the exponent marker: optional sign, at least one digit *)
-Definition parse_exp (positive : bool) (ints fracs : list N) (inp : bytes) : list ev * jres :=
-  let '(pos_exp, r) := match inp with
-                       | 43%N :: r => (true, r)
-                       | 45%N :: r => (false, r)
-                       | _ => (true, inp)
-                       end in
+(* after the exponent marker: optional sign, at least one digit *)
+Definition exp_sign (inp : bytes) : bool * bytes :=
+  match inp with
+  | c :: r => if (c =? 43)%N then (true, r) else if (c =? 45)%N then (false, r) else (true, inp)
+  | [] => (true, inp)
+  end.
+
+Definition exp_digits (positive : bool) (ints fracs : list N) (pos_exp : bool) (r : bytes) : list ev * jres :=
   match r with
   | [] => ([], JErr JEof)
   | b :: _ =>
@@ -109,38 +110,41 @@ Definition parse_exp (positive : bool) (ints fracs : list N) (inp : bytes) : lis
       else ([], JErr JSyntax)
   end.
 
+Definition parse_exp (positive : bool) (ints fracs : list N) (inp : bytes) : list ev * jres :=
+  exp_digits positive ints fracs (fst (exp_sign inp)) (snd (exp_sign inp)).
+
 Definition is_e (b : N) : bool := ((b =? 101) || (b =? 69))%N.
+
+(* an integer literal: u64 if it fits, i64 if negative and it fits, otherwise a float *)
+Definition int_ev (positive : bool) (ints : list N) (rest : bytes) : list ev * jres :=
+  let D := digits_val ints in
+  if positive then
+    if (D <=? u64_max)%N then ([EUInt 64 D], JOk rest) else float_ev true ints 0%Z rest
+  else if (D =? 0)%N then ([EF64 sign_bit], JOk rest)
+  else if (D <=? sign_bit)%N then ([ESInt 64 (- Z.of_N D)%Z], JOk rest)
+  else float_ev false ints 0%Z rest.
+
+(* after the decimal point: at least one digit, then an optional exponent *)
+Definition frac_part (positive : bool) (ints : list N) (r : bytes) : list ev * jres :=
+  let (fs, r2) := take_digits r in
+  match fs with
+  | [] => ([], JErr (match r2 with [] => JEof | _ => JSyntax end))
+  | _ :: _ =>
+      match r2 with
+      | c :: r3 => if is_e c then parse_exp positive ints fs r3
+                   else float_ev positive (ints ++ fs) (- Z.of_nat (length fs))%Z r2
+      | [] => float_ev positive (ints ++ fs) (- Z.of_nat (length fs))%Z r2
+      end
+  end.
 
 (* after the integer part *)
 Definition after_int (positive : bool) (ints : list N) (inp : bytes) : list ev * jres :=
   match inp with
   | b :: r =>
-      if (b =? 46)%N then
-        let (fs, r2) := take_digits r in
-        match fs with
-        | [] => ([], JErr (match r2 with [] => JEof | _ => JSyntax end))
-        | _ :: _ =>
-            match r2 with
-            | c :: r3 => if is_e c then parse_exp positive ints fs r3
-                         else float_ev positive (ints ++ fs) (- Z.of_nat (length fs))%Z r2
-            | [] => float_ev positive (ints ++ fs) (- Z.of_nat (length fs))%Z r2
-            end
-        end
+      if (b =? 46)%N then frac_part positive ints r
       else if is_e b then parse_exp positive ints [] r
-      else
-        let D := digits_val ints in
-        if positive then
-          if (D <=? u64_max)%N then ([EUInt 64 D], JOk inp) else float_ev true ints 0%Z inp
-        else if (D =? 0)%N then ([EF64 sign_bit], JOk inp)
-        else if (D <=? sign_bit)%N then ([ESInt 64 (- Z.of_N D)%Z], JOk inp)
-        else float_ev false ints 0%Z inp
-  | [] =>
-      let D := digits_val ints in
-      if positive then
-        if (D <=? u64_max)%N then ([EUInt 64 D], JOk []) else float_ev true ints 0%Z []
-      else if (D =? 0)%N then ([EF64 sign_bit], JOk [])
-      else if (D <=? sign_bit)%N then ([ESInt 64 (- Z.of_N D)%Z], JOk [])
-      else float_ev false ints 0%Z []
+      else int_ev positive ints inp
+  | [] => int_ev positive ints inp
   end.
 
 (* [inp] starts at the first character after an optional '-' *)
